@@ -2,7 +2,7 @@
    Proofs_*.v and followed by Print Assumptions. *)
 From Coq Require Import List ZArith Bool Arith Lia.
 From Verif Require Import lib.Wire c03.Int64 c03.Model c03.Spec c03.Witness
-     c03.Proofs_Int64 c03.Proofs_Base.
+     c03.Proofs_Int64 c03.Proofs_Base c03.Proofs_Limiter.
 Import ListNotations.
 Local Open Scope Z_scope.
 
@@ -80,6 +80,23 @@ Theorem c03_release_exact : forall l k m, kind_ok k -> all_good m -> NoDup l -> 
              if in_dec sid_dec x l then stat_sub (use_of m x) (kdelta k) else use_of m x).
 Proof. exact uncharge_list_exact. Qed.
 Print Assumptions c03_release_exact.
+
+(* connLimiter, for every configuration (any subnet rules, any prefix table,
+   any allow-list) and every history of the manager's operations - the whole
+   operation language, unbounded: no per-prefix and no per-subnet counter ever
+   exceeds its configured cap.  (That a counter equals the number of open
+   connections of that subnet is what the allow-list retry breaks: see
+   c03_allowlist_cap_refuted below.) *)
+Theorem c03_limiter_counts_within_caps : forall c ops,
+  lim_inv c (lims (run c (init_state c) ops)).
+Proof. intros c ops. apply run_lims. exact (init_limiter_inv c). Qed.
+Print Assumptions c03_limiter_counts_within_caps.
+
+(* the same for the limiter alone under arbitrary addConn / rmConn sequences
+   (also unpaired ones) *)
+Theorem c03_limiter_history : forall c ops, lim_inv c (fold_left (lstep c) ops (init_limiter c)).
+Proof. exact limiter_history_inv. Qed.
+Print Assumptions c03_limiter_history.
 
 (* ---- the full statements that are FALSE of the code, with witnesses ----------------------- *)
 (* Full statement: for every well-formed configuration and every history in
